@@ -7,14 +7,13 @@
            `Spec.c13Match` (RFC + the property's two edge rules)   (Spec/Rfc4647.lean)
 
   Where the model is NOT the bare RFC algorithm, the theorem statement says so:
-    * `filterCore_eq_rfc`: the model answers `false` for range `*` against the empty tag text,
-      the RFC algorithm answers `true`  (edge rule of the property, not of the RFC);
+    * `filterCore_eq_rfc`: (a) the model answers `false` for range `*` against the empty tag
+      text, the RFC algorithm answers `true`; (b) the lone empty range matches only the empty
+      tag text, whereas the bare algorithm accepts every tag whose FIRST subtag is empty
+      (`rfc_empty_range`).  Both are edge rules of the property, not of the RFC;
     * `filterLoop_empty_subtag` / `rfcLoop_empty_subtag`: an empty range subtag after the
       first never matches in the model; the bare algorithm would match it against an empty tag
-      subtag (RFC 4647 has no empty subtags, so this is outside the RFC's domain);
-    * `filterCore_empty_range`: the empty range matches every tag whose FIRST subtag is empty
-      (e.g. the tag text `-foo`), not only the empty tag text; the two coincide on well-formed
-      tags (`filterCore_empty_range_wf`).
+      subtag (RFC 4647 has no empty subtags, so this is outside the RFC's domain).
 -/
 import SoupVerif.Lemmas.Lang
 namespace SoupVerif
@@ -52,47 +51,48 @@ theorem filterLoop_star_literal (rs ss : List Str) :
 /-! ### The whole decision -/
 
 /-- For a range with no empty subtag and no `*` after its first subtag, the model is the RFC
-    algorithm EXCEPT that the range `*` does not match the empty tag text (`[[]]`), which the
-    RFC algorithm accepts.  (The model's special case for the empty range agrees with the RFC
-    algorithm and needs no exception.) -/
+    algorithm EXCEPT for the property's two edge rules, both visible here:
+    the lone empty range matches exactly the empty tag text (the bare algorithm accepts every
+    tag whose first subtag is empty, see `rfc_empty_range`), and the range `*` does not match
+    the empty tag text (the bare algorithm accepts it, see `rfc_star_matches_empty_text`). -/
 theorem filterCore_eq_rfc (r : Str) (rs : List Str) (s : Str) (ss : List Str)
     (hwf : Spec.WellFormedRange (r :: rs)) :
     Lang.filterCore (r :: rs) (s :: ss) =
-      (Spec.extFilterAlg (r :: rs) (s :: ss) &&
+      if r :: rs == Spec.emptyText then s :: ss == Spec.emptyText
+      else (Spec.extFilterAlg (r :: rs) (s :: ss) &&
         !(r :: rs == ["*".toStr] && s :: ss == Spec.emptyText)) := by
   rw [star_toStr]; exact filterCore_eq r rs s ss hwf
 
-/-- The deviation is real: the RFC algorithm accepts `*` against the empty tag text. -/
+/-- Deviation (b) is real: the bare algorithm accepts `*` against the empty tag text. -/
 theorem rfc_star_matches_empty_text :
     Spec.extFilterAlg ["*".toStr] Spec.emptyText = true ∧
     Lang.filterCore ["*".toStr] Spec.emptyText = false := by
   refine ⟨by decide, ?_⟩
   rw [emptyText, filterCore_eq_rfc _ _ _ _ (by decide)]; decide
 
-/-- Edge rule 1, exactly as the model has it: the empty range matches a tag iff the tag's first
-    subtag is empty (the rest of the tag is not looked at). -/
-theorem filterCore_empty_range (s : Str) (ss : List Str) :
-    Lang.filterCore [[]] (s :: ss) = (s == []) := by
-  rw [filterCore_eq [] [] s ss (by decide)]
-  cases s <;> simp [extFilterAlg, rfcLoop_nil, star]
+/-- Deviation (a) is real: the bare algorithm lets the empty range match every tag whose first
+    subtag is empty (for instance the tag text `-foo`). -/
+theorem rfc_empty_range (s : Str) (ss : List Str) :
+    Spec.extFilterAlg Spec.emptyText (s :: ss) = (s == []) := by
+  cases s <;> simp [extFilterAlg, emptyText, rfcLoop_nil, star]
 
-/-- Edge rule 1 on well-formed tags: the empty range matches only the empty tag text. -/
-theorem filterCore_empty_range_wf (tag : List Str) (ht : Spec.WellFormedTag tag) :
-    Lang.filterCore Spec.emptyText tag = (tag == Spec.emptyText) := by
-  have := filterCore_eq_c13Match emptyText tag (by decide) ht
-  rw [this]; simp [c13Match, stripWild, emptyText]
+/-- Edge rule 1: the empty range matches the empty tag text and nothing else — for EVERY tag
+    subtag list, well-formed or not. -/
+theorem empty_range_only_empty_tag (t : List Str) :
+    Lang.filterCore [[]] t = true ↔ t = [[]] := by
+  rw [filterCore_eq_c13Match [[]] t (by decide)]
+  simp [c13Match, stripWild, emptyText]
 
 /-- Edge rule 2: `*` alone matches exactly the tags whose text is non-empty. -/
-theorem filterCore_star_range (s : Str) (ss : List Str) :
-    Lang.filterCore ["*".toStr] (s :: ss) = (s :: ss != Spec.emptyText) := by
-  rw [filterCore_eq_rfc _ _ _ _ (by decide)]
-  cases s <;> cases ss <;> simp [extFilterAlg, rfcLoop_nil, star_toStr, emptyText]
+theorem star_range_nonempty_tag (s : Str) (ss : List Str) :
+    Lang.filterCore [[42]] (s :: ss) = true ↔ ¬ (ss = [] ∧ s = []) := by
+  rw [filterCore_eq_c13Match [[42]] (s :: ss) (by decide)]
+  cases s <;> cases ss <;> simp [c13Match, stripWild, emptyText, star]
 
-/-- Model = RFC algorithm + the two edge rules of C13, for well-formed ranges and tags. -/
-theorem filterCore_eq_c13 (range tag : List Str)
-    (hr : Spec.WellFormedRange range) (ht : Spec.WellFormedTag tag) :
+/-- Model = RFC algorithm + the two edge rules of C13, for well-formed ranges and ALL tags. -/
+theorem filterCore_eq_c13 (range tag : List Str) (hr : Spec.WellFormedRange range) :
     Lang.filterCore range tag = Spec.c13Match range tag :=
-  filterCore_eq_c13Match range tag hr ht
+  filterCore_eq_c13Match range tag hr
 
 /-! ### Wildcards inside the range -/
 
@@ -119,28 +119,28 @@ theorem trailing_wildcard_redundant (rs t : List Str) (hne : rs ≠ []) :
       simp only [List.cons_append, extFilterAlg, star_toStr, rfcLoop_append_star]
 
 /-- Model ∘ stripWild = RFC algorithm on ARBITRARY ranges (interior `*` allowed; subtags after
-    the first non-empty), up to the `*`-vs-empty-text edge rule. -/
+    the first non-empty), up to the two edge rules. -/
 theorem filterCore_stripWild_eq_rfc (r : Str) (rs : List Str) (s : Str) (ss : List Str)
     (hne : ∀ x ∈ rs, x ≠ []) :
     Lang.filterCore (Spec.stripWild (r :: rs)) (s :: ss) =
-      (Spec.extFilterAlg (r :: rs) (s :: ss) &&
+      if Spec.stripWild (r :: rs) == Spec.emptyText then s :: ss == Spec.emptyText
+      else (Spec.extFilterAlg (r :: rs) (s :: ss) &&
         !(Spec.stripWild (r :: rs) == ["*".toStr] && s :: ss == Spec.emptyText)) := by
   rw [star_toStr]; exact filterCore_stripWild_eq r rs s ss hne
 
 theorem filterCore_stripWild_eq_c13 (range tag : List Str)
-    (hne : range ≠ []) (htl : ∀ x ∈ range.tail, x ≠ []) (ht : Spec.WellFormedTag tag) :
+    (hne : range ≠ []) (htl : ∀ x ∈ range.tail, x ≠ []) :
     Lang.filterCore (Spec.stripWild range) tag = Spec.c13Match range tag :=
-  filterCore_stripWild_eq_c13Match range tag hne htl ht
+  filterCore_stripWild_eq_c13Match range tag hne htl
 
 /-- End to end, for any `wildStrip` whose effect on this range text is `stripWild` on its
     subtags: `extended_language_filter` is C13 matching on the lower-cased subtag lists. -/
 theorem extendedFilter_eq_c13 (w : Str → Str) (range tag : Str)
     (hw : splitOn 45 (w range) = Spec.stripWild (splitOn 45 range))
-    (hne : ∀ x ∈ (splitOn 45 range).tail, x ≠ [])
-    (ht : Spec.WellFormedTag (splitOn 45 tag)) :
+    (hne : ∀ x ∈ (splitOn 45 range).tail, x ≠ []) :
     Lang.extendedFilter w range tag =
       Spec.c13Match ((splitOn 45 range).map lower) ((splitOn 45 tag).map lower) :=
-  extendedFilter_eq_c13Match w range tag hw hne ht
+  extendedFilter_eq_c13Match w range tag hw hne
 
 /-! ### Greedy matching is complete -/
 
@@ -231,12 +231,6 @@ example : Embeds (S ["de", "ch"]) (S ["de", "latn", "de", "ch"]) := by decide
 example : WellFormedRange (S ["de", "latn", "de"]) := by decide
 example : WellFormedRange (S ["*", "de"]) := by decide
 example : ¬ WellFormedRange (S ["de", "*", "de"]) := by decide
-example : WellFormedTag (S ["de", "latn", "de"]) := Or.inr ⟨by decide, by decide⟩
-example : WellFormedTag (S [""]) := Or.inl rfl
-example : ¬ WellFormedTag (S ["", "foo"]) := by
-  rintro (h | ⟨_, h⟩)
-  · exact absurd h (by decide)
-  · exact h [] (by decide) rfl
 -- the model (through the theorems; `filterLoop` is by well-founded recursion)
 example : Lang.filterCore (stripWild (S ["de", "*", "de"])) (S ["de", "latn", "de"]) = true := by
   simp only [S, List.map_cons, List.map_nil]
@@ -247,9 +241,12 @@ example : Lang.filterCore (stripWild (S ["de", "*", "de"])) (S ["de", "x", "de"]
 example : Lang.filterCore (S ["*"]) (S [""]) = false := by
   simp only [S, List.map_cons, List.map_nil]
   rw [filterCore_eq_rfc _ _ _ _ (by decide)]; decide
-example : Lang.filterCore (S [""]) (S [""]) = true := filterCore_empty_range [] []
--- the empty range also matches the (ill-formed) tag text `-foo`
-example : Lang.filterCore (S [""]) (S ["", "foo"]) = true := filterCore_empty_range [] _
+example : Lang.filterCore (S [""]) (S [""]) = true := (empty_range_only_empty_tag _).2 rfl
+-- the empty range does not match the (ill-formed) tag text `-foo`; the bare algorithm does
+example : Lang.filterCore (S [""]) (S ["", "foo"]) = false := by
+  rw [← Bool.not_eq_true]
+  exact fun h => absurd ((empty_range_only_empty_tag _).1 h) (by decide)
+example : extFilterAlg (S [""]) (S ["", "foo"]) = true := by decide
 -- an empty interior range subtag: model `false`, bare algorithm `true`
 example : extFilterAlg (S ["a", "", "b"]) (S ["a", "", "b"]) = true := by decide
 example : Lang.filterCore (S ["a", "", "b"]) (S ["a", "", "b"]) = false := by
